@@ -1,10 +1,203 @@
-(* C12 — property theorems only (preliminary: tie + refutations). *)
-From Coq Require Import List Bool Arith.
-From Annet Require Import Model.Pool Spec.P_C12 Gen.Src_parallel.
+(* C12 — the worker pool returns exactly one result per submitted id.
+   Property theorems only; proofs live in Proofs/PoolProofs.v (and Proofs/PoolProgress.v).
+   Model: Model/Pool.v (transition system parent loop x workers x task queue x done queue x feeder
+   buffers; `reachable cfg s` = s is reached from the initial state by any finite interleaving).
+   Gen/Src_parallel.v is regenerated from annet/parallel.py on every run. *)
+From Coq Require Import List Bool Arith Permutation.
+From Annet Require Import Model.Pool Spec.P_C12 Proofs.PoolProofs Proofs.PoolProgress Gen.Src_parallel.
 Import ListNotations.
 
+(* The assumed runtime law: a dying worker's exit code becomes visible to the parent only when its
+   queue feeder thread holds nothing any more ("a put is visible before the exit code is"). *)
+Definition put_before_exit (cfg : config) : Prop := forall out, c_exit cfg out = true -> out = [].
+
+(* --- tie to the source --------------------------------------------------------------------------- *)
+
+(* The loops of annet/parallel.py, as re-read on this run, have the order of operations hard-wired in
+   Model/Pool.v, and the source's break test leaves the loop only if (and whenever) the pool is empty,
+   was already empty before the last get, and that get found nothing. *)
 Theorem C12_source_shape :
   shape_ok src_known src_parent_order src_break src_worker_order = true /\
   brk_safe src_break = true /\ brk_live src_break = true.
 Proof. vm_compute. auto. Qed.
 Print Assumptions C12_source_shape.
+
+(* --- invariants, for every break test ------------------------------------------------------------ *)
+
+(* delivered (+) in flight (+) busy (+) pending = submitted, in every reachable state *)
+Theorem C12_conservation :
+  forall cfg, put_before_exit cfg -> wf_cfg cfg = true ->
+  forall s, reachable cfg s -> Permutation (accounted s) (c_ids cfg).
+Proof. exact conservation. Qed.
+Print Assumptions C12_conservation.
+
+Theorem C12_no_id_twice :
+  forall cfg, put_before_exit cfg -> wf_cfg cfg = true ->
+  forall s, reachable cfg s -> NoDup (c_ids cfg) -> NoDup (accounted s).
+Proof. exact no_id_twice. Qed.
+Print Assumptions C12_no_id_twice.
+
+(* every result, delivered or still in flight, carries the value the task computed for its id *)
+Theorem C12_payload :
+  forall cfg, put_before_exit cfg -> wf_cfg cfg = true ->
+  forall s, reachable cfg s ->
+  Forall (fun r => snd r = c_f cfg (fst r)) (delivered s ++ in_flight s).
+Proof. exact payload. Qed.
+Print Assumptions C12_payload.
+
+(* --- terminal states ----------------------------------------------------------------------------- *)
+
+Definition terminal_complete_for (brk : bexpr) : Prop :=
+  forall cfg, c_brk cfg = brk -> put_before_exit cfg -> wf_cfg cfg = true ->
+  forall s, reachable cfg s -> ppc s = Done -> Permutation (map fst (delivered s)) (c_ids cfg).
+
+(* any loop whose break test is safe: once the parent loop has exited, exactly the submitted multiset
+   of ids has been delivered (any n, pool size, max_tasks, failing ids, interleaving) *)
+Theorem C12_terminal_complete : forall brk, brk_safe brk = true -> terminal_complete_for brk.
+Proof.
+  intros brk HB cfg E HL HW s HR Hd. subst brk. exact (terminal_complete cfg HL HW s HB HR Hd).
+Qed.
+Print Assumptions C12_terminal_complete.
+
+(* ... in particular the loop that is in the source now *)
+Theorem C12_terminal_complete_source : terminal_complete_for src_break.
+Proof. apply C12_terminal_complete. exact (proj1 (proj2 C12_source_shape)). Qed.
+Print Assumptions C12_terminal_complete_source.
+
+(* and nothing is left anywhere *)
+Theorem C12_terminal_nothing_left :
+  forall cfg, put_before_exit cfg -> wf_cfg cfg = true -> brk_safe (c_brk cfg) = true ->
+  forall s, reachable cfg s -> ppc s = Done ->
+  in_flight s = [] /\ busy_ids (ws s) = [] /\ pending_ids (taskq s) = [].
+Proof. intros cfg HL HW HB s HR Hd. exact (terminal_state cfg HL HW s HB HR Hd). Qed.
+Print Assumptions C12_terminal_nothing_left.
+
+(* tolerate_fails = False: irun raises only the failure of an id whose task failed, and what was
+   delivered before plus that id is a sub-multiset of the submitted ids *)
+Theorem C12_abort_sound :
+  forall cfg, put_before_exit cfg -> wf_cfg cfg = true ->
+  forall s i, reachable cfg s -> ppc s = Aborted i ->
+  c_tol cfg = false /\ is_fail (c_f cfg i) = true /\
+  forall x, count_occ Nat.eq_dec (i :: map fst (delivered s)) x <= count_occ Nat.eq_dec (c_ids cfg) x.
+Proof. exact abort_sound. Qed.
+Print Assumptions C12_abort_sound.
+
+(* --- the property predicate ---------------------------------------------------------------------- *)
+
+(* what P_C12 says about a completed call: the delivered list is a permutation of the reference
+   [(i, f i) | i <- ids] *)
+Theorem C12_predicate_meaning :
+  forall x d, P_C12 x (Completed d) = true -> Permutation d (spec_C12 x).
+Proof. exact P_C12_completed_spec. Qed.
+Print Assumptions C12_predicate_meaning.
+
+(* every outcome the pool model can produce satisfies P_C12 *)
+Theorem C12_holds :
+  forall cfg, put_before_exit cfg -> wf_cfg cfg = true -> brk_safe (c_brk cfg) = true ->
+  forall s o, reachable cfg s -> outcome_of_state s = Some o ->
+  P_C12 (c_ids cfg, c_tol cfg, c_f cfg) o = true.
+Proof. exact pool_holds. Qed.
+Print Assumptions C12_holds.
+
+(* the single-process way of irun (pool_size = 1) *)
+Theorem C12_sequential :
+  forall tol f ids, P_C12 (ids, tol, f) (seq_run tol f ids) = true.
+Proof. exact seq_holds. Qed.
+Print Assumptions C12_sequential.
+
+(* --- refutations --------------------------------------------------------------------------------- *)
+
+(* the loop as it was written (`if not pool: break`): a reachable state with the loop exited and a
+   result still queued; and the schedule of the real-code reproduction (2 of 8 delivered) *)
+Theorem C12_lost_result_refuted :
+  ~ terminal_complete_for brk_as_written /\
+  exists s, reachable (ex_cfg (seq 0 8) 3 25 [] brk_as_written lawful_exit) s /\ ppc s = Done /\
+            map fst (delivered s) = [0; 1] /\ map fst (in_flight s) = [2; 3; 4; 5; 6; 7].
+Proof.
+  split.
+  - intros H. destruct (refuted_by _ _ _ _ sched_lost_final) as (s & HR & Hd & Hdel & _).
+    specialize (H (ex_cfg [0; 1] 2 25 [] brk_as_written lawful_exit) eq_refl).
+    assert (HL : put_before_exit (ex_cfg [0; 1] 2 25 [] brk_as_written lawful_exit)).
+    { intros out E. destruct out; [reflexivity | discriminate]. }
+    specialize (H HL eq_refl s HR Hd). rewrite Hdel in H. apply Permutation_length in H. discriminate.
+  - destruct (refuted_by _ _ _ _ sched_f1_final) as (s & HR & Hd & Hdel & Hfl).
+    exists s. rewrite Hdel, Hfl. auto.
+Qed.
+Print Assumptions C12_lost_result_refuted.
+
+(* the naive repair (`if not pool and queue_empty: break`) is refuted too *)
+Theorem C12_naive_fix_refuted : ~ terminal_complete_for brk_naive.
+Proof.
+  intros H. destruct (refuted_by _ _ _ _ sched_naive_final) as (s & HR & Hd & Hdel & _).
+  specialize (H (ex_cfg [0; 1] 2 25 [] brk_naive lawful_exit) eq_refl).
+  assert (HL : put_before_exit (ex_cfg [0; 1] 2 25 [] brk_naive lawful_exit)).
+  { intros out E. destruct out; [reflexivity | discriminate]. }
+  specialize (H HL eq_refl s HR Hd). rewrite Hdel in H. apply Permutation_length in H. discriminate.
+Qed.
+Print Assumptions C12_naive_fix_refuted.
+
+(* the runtime law is needed: if exit codes could overtake the feeder thread, the repaired loop would
+   lose results as well *)
+Theorem C12_law_needed :
+  exists s, reachable (ex_cfg [0; 1] 2 25 [] brk_fixed (fun _ => true)) s /\ ppc s = Done /\
+            delivered s = [] /\ map fst (in_flight s) = [0; 1].
+Proof.
+  destruct (refuted_by _ _ _ _ sched_lawless_final) as (s & HR & Hd & Hdel & Hfl).
+  exists s. rewrite Hdel, Hfl. auto.
+Qed.
+Print Assumptions C12_law_needed.
+
+(* --- progress ------------------------------------------------------------------------------------ *)
+
+(* no deadlock: in every state where the parent loop has not ended the parent has an enabled step *)
+Theorem C12_progress_enabled :
+  forall cfg s, ppc s <> Done -> (forall i, ppc s <> Aborted i) -> exists l s', exec cfg s l = Some s'.
+Proof. exact parent_enabled. Qed.
+Print Assumptions C12_progress_enabled.
+
+(* every step except a timed-out get strictly decreases the measure [mu]; a timed-out get adds at most 3 *)
+Theorem C12_progress_measure :
+  forall cfg, put_before_exit cfg -> wf_cfg cfg = true ->
+  forall s l s', reachable cfg s -> exec cfg s l = Some s' ->
+  (l <> LGetEmpty -> mu cfg s' < mu cfg s) /\ (l = LGetEmpty -> mu cfg s' <= mu cfg s + 3).
+Proof. exact mu_decreases. Qed.
+Print Assumptions C12_progress_measure.
+
+(* a timed-out get in a state where no worker can move is followed, within the same iteration of the
+   parent, by the end of the loop or by a strictly smaller measure: the parent never spins on its own *)
+Theorem C12_progress_no_idle_spin :
+  forall cfg, put_before_exit cfg -> wf_cfg cfg = true -> brk_live (c_brk cfg) = true ->
+  forall s, reachable cfg s -> ppc s = AtGet -> doneq s = [] -> quiescent cfg s ->
+  exists s', run cfg s [LGetEmpty; LReap (reap_obs (ws s)); LNoDeliver;
+                        if eval_brk (c_brk cfg) (pool_empty (map reap_w (ws s))) (pool_empty (ws s)) true
+                        then LBreak else LLoop] = Some s' /\
+             (ppc s' = Done \/ mu cfg s' < mu cfg s).
+Proof. exact no_idle_spin. Qed.
+Print Assumptions C12_progress_no_idle_spin.
+
+(* --- non-vacuity --------------------------------------------------------------------------------- *)
+
+(* a concrete run of the repaired loop to a terminal state: 3 ids, 2 workers, max_tasks = 1 (each task
+   retires its worker, slots are restarted), id 1 fails; everything is delivered *)
+Example C12_example_terminal :
+  exists s, reachable (ex_cfg [0; 1; 2] 2 1 [1] brk_fixed lawful_exit) s /\ ppc s = Done /\
+            delivered s = [(0, VOk 3); (1, VFail 18); (2, VOk 17)] /\ in_flight s = [].
+Proof. exact (refuted_by _ _ _ _ sched_ok_final). Qed.
+
+Example C12_example_guards :
+  wf_cfg (ex_cfg [0; 1; 2] 2 1 [1] brk_fixed lawful_exit) = true /\
+  put_before_exit (ex_cfg [0; 1; 2] 2 1 [1] brk_fixed lawful_exit) /\
+  brk_safe brk_fixed = true /\ brk_live brk_fixed = true /\
+  brk_safe brk_as_written = false /\ brk_safe brk_naive = false.
+Proof.
+  repeat split; try reflexivity. intros out E. destruct out; [reflexivity | discriminate].
+Qed.
+
+Example C12_example_predicate :
+  P_C12 ([0; 1; 2], true, std_f [1]) (Completed [(0, VOk 3); (1, VFail 18); (2, VOk 17)]) = true /\
+  P_C12 (seq 0 8, true, std_f []) (Completed [(0, VOk 3); (1, VOk 10)]) = false /\
+  P_C12 ([0; 1], true, std_f []) (Completed [(0, VOk 3); (1, VOk 10); (1, VOk 10)]) = false /\
+  P_C12 ([0; 1], true, std_f []) (Completed [(0, VOk 3); (1, VOk 11)]) = false /\
+  P_C12 ([0; 1], false, std_f [1]) (Raised 1 [(0, VOk 3)]) = true /\
+  P_C12 ([0; 1], true, std_f [1]) (Raised 1 [(0, VOk 3)]) = false.
+Proof. vm_compute. repeat split; reflexivity. Qed.
